@@ -129,7 +129,7 @@ CHECKS["C02"] = {
              "Poisson(tau|gamma tau), tau=(nom/unc)^2 for shapesys), each paired with the auxiliary datum at the reported position; main + "
              "constraint == full; pdf == exp(logpdf); config.auxdata is the nominal auxiliary data in the reported order; overrides of "
              "auxdata/sigmas/factors appear verbatim. Found and repaired (fix: commit): constraint_logpdf/expected_auxdata raised IndexError on "
-             "models without constrained parameters. " + _PIPE + ". Tier P (unbounded number of constrained components N, parameters, auxiliary data, batch rows): gaussian_ / poisson_constraint_combined.make_pdf + logpdf are executed on the abstract state of their class invariants and the value is proved to be ONE reduction over the components whose n-th term is logN(aux[d(n)] | par[k(n)], sigma(n)) resp. logPois(aux[d(n)] | par[k(n)] * factor(n)); no pdf object without constrained components."),
+             "models without constrained parameters. " + _PIPE + ". Tier P (unbounded number of constrained components N, parameters, auxiliary data, batch rows): gaussian_ / poisson_constraint_combined.make_pdf + logpdf are executed on the abstract state of their class invariants and the value is proved to be ONE reduction over the components whose n-th term is logN(aux[d(n)] | par[k(n)], sigma(n)) resp. logPois(aux[d(n)] | par[k(n)] * factor(n)); no pdf object without constrained components; _TensorViewer.stitch / split for any two-part partition of symbolic sizes under the permutation invariant (every datum lands at the position its index names; split reads each part's own indices), with and without leading axes."),
     "note": "density formulas are the C04 specification functions (xlogy, lgamma, log, sqrt uninterpreted with axioms); structure bounded, numbers unbounded",
     "technique": "contract-based deductive verification: symbolic execution of the real likelihood pipeline per structure skeleton, z3 equality with the template oracle; native replay",
 }
